@@ -63,6 +63,61 @@ macro_rules! slots {
 static CBIN: [fn(Counted, Counted) -> Counted; NSLOTS] = slots!(cb, 0,1,2,3,4,5,6,7,8,9,10,11,12,13,14,15,16,17,18,19,20,21,22,23,24,25,26,27,28,29,30,31,32,33,34,35,36,37,38,39,40,41,42,43,44,45,46,47,48,49,50,51,52,53,54,55,56,57,58,59,60,61,62,63,64,65,66,67,68,69,70,71,72,73,74,75,76,77,78,79,80,81,82,83,84,85,86,87,88,89,90,91,92,93,94,95);
 static CUN: [fn(Counted) -> Counted; NSLOTS] = slots!(cu, 0,1,2,3,4,5,6,7,8,9,10,11,12,13,14,15,16,17,18,19,20,21,22,23,24,25,26,27,28,29,30,31,32,33,34,35,36,37,38,39,40,41,42,43,44,45,46,47,48,49,50,51,52,53,54,55,56,57,58,59,60,61,62,63,64,65,66,67,68,69,70,71,72,73,74,75,76,77,78,79,80,81,82,83,84,85,86,87,88,89,90,91,92,93,94,95);
 
+/// what `one` needs from a counting data type
+pub trait Cnt: Clone + Default + std::fmt::Debug + PartialEq + FromStr<Err = String> + From<u8> {
+    fn mk(t: Term, id: Option<usize>) -> Self;
+    fn term(&self) -> &Term;
+}
+impl Cnt for Counted {
+    fn mk(t: Term, id: Option<usize>) -> Self { Counted { t, id } }
+    fn term(&self) -> &Term { &self.t }
+}
+/// the same behind one pointer: `size_of::<CountedB>() == size_of::<usize>()`, a clone is still a deep, counted clone.
+/// A library that picks "copy instead of move" by the size of the handle is visible through this type only.
+#[derive(Debug, Default, Clone, PartialEq)]
+pub struct CountedB(Box<Counted>);
+impl From<u8> for CountedB {
+    fn from(n: u8) -> Self { CountedB(Box::new(Counted::from(n))) }
+}
+impl FromStr for CountedB {
+    type Err = String;
+    fn from_str(s: &str) -> Result<Self, Self::Err> { Ok(CountedB(Box::new(Counted::from_str(s)?))) }
+}
+impl Cnt for CountedB {
+    fn mk(t: Term, id: Option<usize>) -> Self { CountedB(Box::new(Counted { t, id })) }
+    fn term(&self) -> &Term { &self.0.t }
+}
+fn cbb<const I: usize>(a: CountedB, b: CountedB) -> CountedB {
+    CountedB(Box::new(cb::<I>(*a.0, *b.0)))
+}
+fn cub<const I: usize>(a: CountedB) -> CountedB {
+    CountedB(Box::new(cu::<I>(*a.0)))
+}
+static CBINB: [fn(CountedB, CountedB) -> CountedB; NSLOTS] = slots!(cbb, 0,1,2,3,4,5,6,7,8,9,10,11,12,13,14,15,16,17,18,19,20,21,22,23,24,25,26,27,28,29,30,31,32,33,34,35,36,37,38,39,40,41,42,43,44,45,46,47,48,49,50,51,52,53,54,55,56,57,58,59,60,61,62,63,64,65,66,67,68,69,70,71,72,73,74,75,76,77,78,79,80,81,82,83,84,85,86,87,88,89,90,91,92,93,94,95);
+static CUNB: [fn(CountedB) -> CountedB; NSLOTS] = slots!(cub, 0,1,2,3,4,5,6,7,8,9,10,11,12,13,14,15,16,17,18,19,20,21,22,23,24,25,26,27,28,29,30,31,32,33,34,35,36,37,38,39,40,41,42,43,44,45,46,47,48,49,50,51,52,53,54,55,56,57,58,59,60,61,62,63,64,65,66,67,68,69,70,71,72,73,74,75,76,77,78,79,80,81,82,83,84,85,86,87,88,89,90,91,92,93,94,95);
+#[derive(Clone, Debug)]
+pub struct DynOpsCB;
+impl MakeOperators<CountedB> for DynOpsCB {
+    fn make<'a>() -> Vec<Operator<'a, CountedB>> {
+        table()
+            .iter()
+            .enumerate()
+            .map(|(i, o)| {
+                let b = BinOp { apply: CBINB[i], prio: o.prio, is_commutative: o.comm };
+                if o.constant {
+                    Operator::make_constant(o.name, CountedB::mk(Term::Const(i), None))
+                } else if o.bin && o.un {
+                    Operator::make_bin_unary(o.name, b, CUNB[i])
+                } else if o.bin {
+                    Operator::make_bin(o.name, b)
+                } else {
+                    Operator::make_unary(o.name, CUNB[i])
+                }
+            })
+            .collect()
+    }
+}
+
 #[derive(Clone, Debug)]
 pub struct DynOpsC;
 impl MakeOperators<Counted> for DynOpsC {
@@ -86,10 +141,9 @@ impl MakeOperators<Counted> for DynOpsC {
     }
 }
 
-type FlatC = FlatEx<Counted, DynOpsC, TermMatcher>;
 
-fn vals(names: &[String]) -> Vec<Counted> {
-    names.iter().enumerate().map(|(i, n)| Counted { t: Term::Var(n.clone()), id: Some(i) }).collect()
+fn vals<C: Cnt>(names: &[String]) -> Vec<C> {
+    names.iter().enumerate().map(|(i, n)| C::mk(Term::Var(n.clone()), Some(i))).collect()
 }
 fn reset(n: usize) {
     CLONES.with(|c| *c.borrow_mut() = vec![0; n]);
@@ -101,42 +155,42 @@ fn counts(n: usize) -> Vec<u64> {
     })
 }
 
-fn one(text: &str, compile: bool, ghost: &[String]) -> Value {
+fn one<C: Cnt, OF: MakeOperators<C> + Clone + std::fmt::Debug>(text: &str, compile: bool, ghost: &[String]) -> Value {
     // the ghost construction is part of the script, not of what is observed
-    let with_ghosts = |e: FlatC| -> exmex::ExResult<FlatC> {
+    let with_ghosts = |e: FlatEx<C, OF, TermMatcher>| -> exmex::ExResult<FlatEx<C, OF, TermMatcher>> {
         if ghost.is_empty() {
             return Ok(e);
         }
         let mut d = e.to_deepex()?;
         for g in ghost {
             let gtext: &'static str = Box::leak(format!("{{{g}}}").into_boxed_str());
-            let zero = (FlatC::parse(gtext)?.to_deepex()? * FlatC::parse("0")?.to_deepex()?)?;
+            let zero = (FlatEx::<C, OF, TermMatcher>::parse(gtext)?.to_deepex()? * FlatEx::<C, OF, TermMatcher>::parse("0")?.to_deepex()?)?;
             d = (d + zero)?;
         }
-        FlatC::from_deepex(d)
+        FlatEx::<C, OF, TermMatcher>::from_deepex(d)
     };
     let r = guarded(|| -> exmex::ExResult<Value> {
-        let e = if compile { FlatC::parse(text)? } else { FlatC::parse_wo_compile(text)? };
+        let e = if compile { FlatEx::<C, OF, TermMatcher>::parse(text)? } else { FlatEx::<C, OF, TermMatcher>::parse_wo_compile(text)? };
         let e = match with_ghosts(e) {
             Ok(e) => e,
             Err(_) => return Ok(json!({"outcome": "script"})),
         };
         let names = e.var_names().to_vec();
         let n = names.len();
-        let v = vals(&names);
+        let v: Vec<C> = vals(&names);
         reset(n);
         let borrowed = e.eval(&v)?;
         let c_borrow = counts(n);
         reset(n);
-        let by_vec = e.eval_vec(vals(&names))?;
+        let by_vec = e.eval_vec(vals::<C>(&names))?;
         let c_vec = counts(n);
         reset(n);
-        let by_iter = e.eval_iter(vals(&names).into_iter())?;
+        let by_iter = e.eval_iter(vals::<C>(&names).into_iter())?;
         let c_iter = counts(n);
         Ok(json!({"outcome": "ok", "vars": names.iter().map(|s| crate::term::cps(s)).collect::<Vec<_>>(),
-                  "borrow": borrowed.t.to_json(), "vec": by_vec.t.to_json(), "iter": by_iter.t.to_json(),
+                  "borrow": borrowed.term().to_json(), "vec": by_vec.term().to_json(), "iter": by_iter.term().to_json(),
                   "clones_borrow": c_borrow, "clones_vec": c_vec, "clones_iter": c_iter,
-                  "hole": by_vec.t.has_hole() || by_iter.t.has_hole() || borrowed.t.has_hole()}))
+                  "hole": by_vec.term().has_hole() || by_iter.term().has_hole() || borrowed.term().has_hole()}))
     });
     match r {
         Err(_) => json!({"outcome": "panic"}),
@@ -176,7 +230,15 @@ pub fn main(args: &[String]) -> i32 {
             }
             runs += 1;
             crate::term::reset_intern();
-            let obs = one(&text, compile, ghost);
+            let mut obs = one::<Counted, DynOpsC>(&text, compile, ghost);
+            // the same through the pointer-sized counting type: everything observed must be identical
+            crate::term::reset_intern();
+            let obs_b = one::<CountedB, DynOpsCB>(&text, compile, ghost);
+            if obs_b != obs {
+                // forwarded as a separate run so that the judge sees what the small type did
+                obs = obs_b;
+                obs.as_object_mut().unwrap().insert("small_type".into(), json!(true));
+            }
             // identical to the TLC expectation: all three values equal the expected tree and the
             // clone counts equal the model's
             let same = obs["outcome"] == "ok"
